@@ -92,6 +92,11 @@ POSITIONS = [
     ("before-units", "k = 1 {c} <m>\nj = 2\n", 6, "any"),
     ("after-delimiter", "k = 1; {c}\nj = 2\n", 7, "any"),
     ("before-end", "k = 1\n{c} END\n", 6, "any"),
+    # far from any blank: long lexemes and long lines without white space
+    ("in-long-sequence", "k=(1.0,2.0,3.0,4.0,5.0,6.0,{c}7.0,8.0,9.0,10.0,11.0,12.0)\n", 2, "any"),
+    ("in-long-name", "a_very_long_parameter_name_of_{c}more_than_thirty_characters=1\n", 0, "any"),
+    ("in-long-string", 'x=0\nk="aaaaaaaaaaaaaaaaaaaaaaaaa{c}bbbbbbbbbbbbbbbbbbbbbbbbbbbbbbbb"\n', 6, "any"),
+    ("in-compact-lines", "A=1\nB=2\nC=3\nD=4\nE=5\nF={c}6\nG=7\nH=8\nI=9\nJ=10\nK=11\nL=12\n", 22, "any"),
 ]
 
 
